@@ -79,6 +79,8 @@ def run(rep, tier):
     gutter(rep, c)
     marker(rep, c)
     colsub(rep)
+    linetext(rep, c)
+    merge(rep, c)
 
 
 # ------------------------------------------------------------------ CHECKED
@@ -803,3 +805,85 @@ def colsub(rep):
     if n == 0:
         r.note("no subtraction between the two columns of a span location")
         r.floor = 0
+
+
+# ------------------------------------------------------------------ LINETEXT
+
+def linetext(rep, c):
+    r = rep.rule("C10.LINETEXT", 2,
+                 "the line text an error carries is the input line minus its terminator only: the error constructors never "
+                 "apply a whitespace trim (trim / trim_end / trim_start / split_whitespace) to it - the marker row is "
+                 "padded with one blank per character of the stored line, so a line shortened by its trailing blanks puts "
+                 "the marker left of the reported column")
+    TRIMS = ("trim", "trim_end", "trim_start", "trim_ascii", "trim_ascii_end", "trim_ascii_start", "split_whitespace",
+             "trim_right", "trim_left")
+    probe = {"k": "MethodCall", "m": "trim_end", "recv": {"k": "Path"}, "args": []}
+    if probe["m"] not in TRIMS:
+        r.lost("self-test of the trim detector")
+        return
+    n = 0
+    for b in c.bodies:
+        if not in_error_module(b) or b.get("body") is None or b.get("exp") or not b.get("exported"):
+            continue
+        builds = any(kind(x) == "Struct" and str(x.get("path", "")).endswith(("error::Error", "error::ErrorInner")) for x in walk(b["body"]))
+        reads_line = any(kind(x) == "MethodCall" and x["m"] in ("line_of", "lines", "lines_span") for x in walk(b["body"]))
+        if not (builds and reads_line):
+            continue
+        n += 1
+        key = b["path"].replace("pest::error::", "")
+        r.instance(key, where(b["body"]))
+        for x in walk(b["body"]):
+            if kind(x) == "MethodCall" and x["m"] in TRIMS and "str" in str(x.get("path", "")):
+                r.violation(key + ":" + x["m"], where(x),
+                            "%s trims white space off the line text (`%s`): trailing blanks of the input line are part of "
+                            "the line the marker is drawn under" % (b["name"], hirq.expr_text(x)[:40]))
+    if n < 2:
+        r.lost("the error constructors that read the input line (new_from_pos / new_from_span; found %d)" % n)
+
+
+# ------------------------------------------------------------------ MERGE
+
+def merge(rep, c):
+    r = rep.rule("C10.MERGE", 1,
+                 "merge_spans builds its result from the smaller of the two starts and the larger of the two ends (the "
+                 "overlap test is symmetric, so the arguments can come in either order and one may contain the other): "
+                 "each bound of the constructed span is computed from BOTH arguments")
+    fn = c.fn("pest::span::merge_spans")
+    if fn is None:
+        r.lost("pest::span::merge_spans")
+        return
+    params = [p["id"] for p in fn["params"] if p.get("k") == "PBind"]
+    if len(params) != 2:
+        r.lost("two span parameters of merge_spans")
+        return
+    lets = hirq.lets(fn["body"])
+
+    def mentions(e, depth=0):
+        """parameter ids whose start/end the expression reads (through lets)"""
+        out = set()
+        for y in walk(e):
+            if kind(y) == "Path" and y.get("res") == "local":
+                if y["id"] in params:
+                    out.add(y["id"])
+                elif y["id"] in lets and lets[y["id"]][0] is not None and depth < 3:
+                    out |= mentions(lets[y["id"]][0], depth + 1)
+        return out
+    ctors = [x for x in walk(fn["body"]) if (kind(x) == "Call" and str(callee(x)).startswith("pest::span::Span::new"))
+             or (kind(x) == "Struct" and x.get("path") == SPAN)]
+    if not ctors:
+        r.lost("construction of the merged span")
+        return
+    for x in ctors:
+        if kind(x) == "Call":
+            args = x["args"]
+            bounds = [("start", args[-2]), ("end", args[-1])] if len(args) >= 3 else []
+        else:
+            bounds = [(f["name"], f["e"]) for f in x["fields"] if f["name"] in ("start", "end")]
+        for (nm, e) in bounds:
+            m = mentions(e)
+            r.instance("bound:" + nm, where(e), hirq.expr_text(e)[:50])
+            if set(params) - m:
+                r.violation("bound:" + nm, where(e),
+                            "the %s of the merged span is `%s`, computed from one argument only: with the spans given in "
+                            "reverse order, or one inside the other, the result does not cover both"
+                            % (nm, hirq.expr_text(e)[:50]))
